@@ -122,8 +122,44 @@ def doKeyword (st : PState) (name : Bytes) : PState :=
   else if name == kwObj || name == kwEndobj then st
   else push st (.kwd name)
 
-/-- One iteration of the loop of `nextobject` for one token. -/
-def feed (st : PState) (tok : Token) : PState :=
+def kwXref : Bytes := [120, 114, 101, 102]
+def kwStartxref : Bytes := [115, 116, 97, 114, 116, 120, 114, 101, 102]
+def kwStream : Bytes := [115, 116, 114, 101, 97, 109]
+
+/-- `self.add_results(*self.pop(k))` -/
+def popToResults (st : PState) (k : Nat) : PState :=
+  let n := st.curstack.length
+  { st with curstack := st.curstack.take (n - k), results := st.results ++ st.curstack.drop (n - k) }
+
+/-- `PDFParser.do_keyword` (the reader behind `PDFDocument.getobj`).  The `stream` keyword needs the
+    bytes of the file (`Model/ObjParser.lean` handles it before calling this function). -/
+def doKeywordP (st : PState) (name : Bytes) : PState :=
+  if name == kwXref || name == kwStartxref then popToResults st 1
+  else if name == kwEndobj then popToResults st 4
+  else if name == kwNull then push st .null
+  else if name == kwR then
+    let n := st.curstack.length
+    if n < 2 then st else
+    let st' := { st with curstack := st.curstack.take (n - 2) }
+    match st.curstack.drop (n - 2) with
+    | [.int v, _] => push st' (.ref v)
+    | [.bool b, _] => push st' (.ref (if b then 1 else 0))
+    | [.real _, _] => { st' with error := some "unmodelled" }
+    | [.str _, _] => { st' with error := some "unmodelled" }
+    | _ => st'
+  else if name == kwStream then { st with error := some "unmodelled" }
+  else push st (.kwd name)
+
+/-- The two subclasses of PSStackParser that read PDF objects differ in `do_keyword` and in `flush`. -/
+structure Dialect where
+  doKeyword : PState → Bytes → PState
+  flushes : Bool        -- `flush()` moves the operand stack to `results` whenever no container is open
+
+def streamDialect : Dialect := ⟨doKeyword, true⟩      -- PDFStreamParser
+def objDialect : Dialect := ⟨doKeywordP, false⟩        -- PDFParser (PSStackParser.flush does nothing)
+
+/-- One iteration of the loop of `PSStackParser.nextobject` for one token. -/
+def feedWith (D : Dialect) (st : PState) (tok : Token) : PState :=
   if st.error.isSome then st else
   let st1 : PState :=
     match tok with
@@ -154,15 +190,58 @@ def feed (st : PState) (tok : Token) : PState :=
         match endType st .p with
         | some (objs, st') => push st' (.arr objs)
         | none => st
-      else doKeyword st name
+      else D.doKeyword st name
   if st1.error.isSome then st1
-  else if st1.context.isEmpty then { st1 with results := st1.results ++ st1.curstack, curstack := [] }
+  else if st1.context.isEmpty && D.flushes then { st1 with results := st1.results ++ st1.curstack, curstack := [] }
   else st1
 
-def feedAll (st : PState) (toks : List Token) : PState := toks.foldl feed st
+def feedAllWith (D : Dialect) (st : PState) (toks : List Token) : PState := toks.foldl (feedWith D) st
+
+/-- PDFStreamParser -/
+def feed (st : PState) (tok : Token) : PState := feedWith streamDialect st tok
+def feedAll (st : PState) (toks : List Token) : PState := feedAllWith streamDialect st toks
 
 /-- Objects `PDFStreamParser(data).nextobject()` returns until PSEOF or an exception. -/
 def objects (toks : List PTok) : PState := feedAll {} (toks.map (·.2))
+
+/-! ### `PDFDocument._getobj_parse` / `getobj` for an object found through a cross-reference table -/
+
+/-- `PSStackParser.nextobject` of PDFParser: feed tokens until `results` is not empty; the first result
+    is returned.  `none` = the tokens ran out (PSEOF). -/
+def nextobjectP : PState → List Token → Option PState
+  | st, [] => if st.error.isSome || !st.results.isEmpty then some st else none
+  | st, t :: r =>
+    if st.error.isSome || !st.results.isEmpty then some st
+    else nextobjectP (feedWith objDialect st t) r
+
+inductive GetObj where
+  | ok (o : SObj)
+  | notFound            -- PSEOF / PDFSyntaxError inside getobj: the next xref is tried, then PDFObjectNotFound
+  | raised (e : String)
+  deriving Repr
+
+/-- `getobj(objid)` on the tokens found at the object's offset: `objid gen obj <object> endobj`.
+    A first token that is not the integer `objid` (pdfminer then searches for the next `obj`
+    keyword) is not modelled. -/
+def getobjToks (objid : Int) (toks : List Token) : GetObj :=
+  match toks with
+  | t1 :: _ :: t3 :: rest =>
+    match t1 with
+    | .int n =>
+      if n != objid then .raised "unmodelled"
+      else if t3 != Token.kwd kwObj then .notFound
+      else
+        match nextobjectP {} rest with
+        | none => .notFound
+        | some st =>
+          match st.error with
+          | some e => .raised e
+          | none =>
+            match st.results with
+            | o :: _ => .ok o
+            | [] => .notFound
+    | _ => .raised "unmodelled"
+  | _ => .notFound
 
 /-! ### canonical text form (same as `Syntax.Obj.show`; reals as exact `p/q` of the decimal text) -/
 
@@ -210,6 +289,11 @@ def showEntries : List (Bytes × SObj) → List (Bytes × String)
   | [] => []
   | (k, v) :: r => insertSorted (k, v.show) (showEntries r)
 end
+
+def GetObj.show : GetObj → String
+  | .ok o => o.show
+  | .notFound => "!PDFObjectNotFound"
+  | .raised e => "!" ++ e
 
 def showState (st : PState) : String :=
   let objs := st.results.map SObj.show
